@@ -1,2 +1,122 @@
-(* placeholder until HashMapProofs.v is written *)
-From FV Require Import HashMap.HashMapModel.
+(* C14: frg::hash_map holds exactly the reference key->value association.
+   Statements only; proofs are in HashMap/HashMapProofs.v.  Every theorem is for EVERY hash function
+   (constant, colliding, anything) and every operation history in which insert() is only called with
+   absent keys (the documented precondition of hash_map::insert; operator[] has no precondition).
+
+   Vocabulary (HashMap/HashMapModel.v, HashMap/HashMapProofs.v):
+     run hash empty_hm ops      the model run: final map and the list of outputs, one per op
+     ref_run [] ops             the reference: an association list, newest first
+                                (Insert/IndexSet-miss cons, IndexSet-hit overwrites, Remove filters)
+     out_ok out rout            OUnit~RUnit, OVal v ~ RVal v (equal), OList l ~ RList r iff
+                                Permutation l r and NoDup (map fst l)
+     IndexSet k v               the statement  m[k] = v;  its output is the value found by operator[]
+                                before the assignment, None when operator[] created the default entry *)
+From Coq Require Import List NArith Permutation.
+From FV Require Import HashMap.HashMapModel HashMap.HashMapProofs HashMap.HashMapExamples.
+Import ListNotations.
+Local Open Scope N_scope.
+
+(* Invariant: every entry sits in chain [bucket_of hash (cap m) k] for the CURRENT capacity, keys are
+   pairwise distinct, size = total chain length, table length = capacity, capacity > 0 or size = 0. *)
+Theorem C14_invariant_init : forall hash, hm_inv hash empty_hm.
+Proof. exact hm_inv_empty. Qed.
+Print Assumptions C14_invariant_init.
+
+Theorem C14_invariant_step : forall hash m o,
+  hm_inv hash m ->
+  (forall k v, o = Insert k v -> get hash k m = None) ->
+  hm_inv hash (fst (step hash m o)).
+Proof. exact hm_inv_step. Qed.
+Print Assumptions C14_invariant_step.
+
+Theorem C14_invariant : forall hash ops,
+  inserts_absent ops -> hm_inv hash (fst (run hash empty_hm ops)).
+Proof. exact hm_inv_run. Qed.
+Print Assumptions C14_invariant.
+
+(* Refinement: all outputs agree with the reference (get/find, operator[], remove, size, iteration),
+   and at the end size = |R|, iteration is a permutation of R without repeated keys. *)
+Theorem C14_refines_map : forall hash ops,
+  inserts_absent ops ->
+  let m := fst (run hash empty_hm ops) in
+  let r := fst (ref_run [] ops) in
+  Forall2 out_ok (snd (run hash empty_hm ops)) (snd (ref_run [] ops)) /\
+  size m = length r /\
+  Permutation (iterate m) r /\
+  NoDup (map fst (iterate m)).
+Proof. exact hm_refines_map. Qed.
+Print Assumptions C14_refines_map.
+
+(* remove(k) makes k absent in the map itself *)
+Theorem C14_remove_makes_absent : forall hash ops k,
+  inserts_absent (ops ++ [Remove k]) ->
+  get hash k (fst (run hash empty_hm (ops ++ [Remove k]))) = None.
+Proof. exact hm_remove_absent. Qed.
+Print Assumptions C14_remove_makes_absent.
+
+(* The reference is the intended one: remove deletes exactly k, a hit of operator[]= overwrites k. *)
+Theorem C14_reference_remove : forall k k' r,
+  assoc k (ref_del k r) = None /\ (k' <> k -> assoc k' (ref_del k r) = assoc k' r).
+Proof. exact ref_remove_spec. Qed.
+Print Assumptions C14_reference_remove.
+
+Theorem C14_reference_index_hit : forall k v r old,
+  assoc k r = Some old -> assoc k (ref_set k v r) = Some v /\ length (ref_set k v r) = length r.
+Proof. exact ref_index_hit_spec. Qed.
+Print Assumptions C14_reference_index_hit.
+
+(* The executable check of the precondition used by the Examples is sound. *)
+Theorem C14_inserts_absent_decidable : forall ops, ops_okb [] ops = true -> inserts_absent ops.
+Proof. exact inserts_absentb_sound. Qed.
+Print Assumptions C14_inserts_absent_decidable.
+
+(* ---- non-vacuity: concrete histories that satisfy the hypotheses and cross rehash thresholds ---- *)
+
+(* ex_ops, ex_id, ex_const: HashMap/HashMapExamples.v *)
+Example C14_invariant_init_nonvacuous : cap empty_hm = 0%nat /\ size empty_hm = 0%nat.
+Proof. vm_compute. split; reflexivity. Qed.
+
+(* a state reached after a rehash, with a two-element chain, stepped with a removal from that chain *)
+Example C14_invariant_step_nonvacuous :
+  let m := fst (run ex_const empty_hm (map (fun i => Insert (N.of_nat i) 1) (seq 0 12))) in
+  cap m = 20%nat /\ size m = 12%nat /\ get ex_const 12 m = None /\
+  size (fst (step ex_const m (Remove 6))) = 11%nat /\ size (fst (step ex_const m (Insert 12 1))) = 13%nat.
+Proof. vm_compute. repeat split. Qed.
+
+Example C14_invariant_nonvacuous :
+  ops_okb [] ex_ops = true /\
+  cap (fst (run ex_id empty_hm ex_ops)) = 40%nat /\ cap (fst (run ex_const empty_hm ex_ops)) = 40%nat.
+Proof. vm_compute. repeat split. Qed.
+
+Example C14_refines_map_nonvacuous :
+  ops_okb [] ex_ops = true /\
+  length ex_ops = 38%nat /\
+  cap (fst (run ex_id empty_hm ex_ops)) = 40%nat /\
+  size (fst (run ex_id empty_hm ex_ops)) = 27%nat /\
+  length (fst (ref_run [] ex_ops)) = 27%nat /\
+  (* outputs 32..36, identity hash: remove 999 misses, 20 is gone, 19 -> 20, 5 -> 500, size 27 *)
+  firstn 5 (skipn 32 (snd (run ex_id empty_hm ex_ops))) =
+    [OVal None; OVal None; OVal (Some 20); OVal (Some 500); OVal (Some 27)] /\
+  firstn 5 (skipn 32 (snd (run ex_const empty_hm ex_ops))) =
+    [OVal None; OVal None; OVal (Some 20); OVal (Some 500); OVal (Some 27)] /\
+  (* iteration orders differ between the two hash functions, the contents do not *)
+  nth 37 (snd (run ex_id empty_hm ex_ops)) OUnit <> nth 37 (snd (run ex_const empty_hm ex_ops)) OUnit.
+Proof. vm_compute. repeat split. discriminate. Qed.
+
+Example C14_remove_makes_absent_nonvacuous :
+  ops_okb [] (firstn 29 ex_ops ++ [Remove 13]) = true /\
+  get ex_id 13 (fst (run ex_id empty_hm (firstn 29 ex_ops))) = Some 14 /\
+  get ex_id 13 (fst (run ex_id empty_hm (firstn 29 ex_ops ++ [Remove 13]))) = None.
+Proof. vm_compute. repeat split. Qed.
+
+Example C14_reference_remove_nonvacuous :
+  assoc 2 (ref_del 2 [(1, 10); (2, 20); (3, 30)]) = None /\ assoc 3 (ref_del 2 [(1, 10); (2, 20); (3, 30)]) = Some 30.
+Proof. vm_compute. split; reflexivity. Qed.
+
+Example C14_reference_index_hit_nonvacuous :
+  assoc 2 [(1, 10); (2, 20)] = Some 20 /\ assoc 2 (ref_set 2 99 [(1, 10); (2, 20)]) = Some 99.
+Proof. vm_compute. split; reflexivity. Qed.
+
+Example C14_inserts_absent_decidable_nonvacuous :
+  ops_okb [] ex_ops = true /\ ops_okb [] [Insert 1 1; Insert 1 2] = false /\ ops_okb [] [IndexSet 1 1; Insert 1 2] = false.
+Proof. vm_compute. repeat split. Qed.
